@@ -65,6 +65,7 @@ struct ColMajor {
 // objects that come out of the file readers differ internally from API-built ones (arrays sized exactly, a
 // row-major copy of the matrix attached): build, write as MPS, read back, and keep the result only if it
 // dumps as the very same model (otherwise the API-built object is used)
+bool g_built_via_file = false;
 static mpq_QSprob via_file(const Model &m, std::string *err) {
   bool every_col_used = true, named = !m.name.empty();
   std::vector<bool> used(m.n(), false);
@@ -89,9 +90,10 @@ static mpq_QSprob via_file(const Model &m, std::string *err) {
 mpq_QSprob sut_build(const Model &m, int route, std::string *err) {
   int n = m.n(), mm = m.m();
   mpq_QSprob p = nullptr;
+  g_built_via_file = false;
   if (route == R_FILE) {
     p = via_file(m, err);
-    if (p) return p;
+    if (p) { g_built_via_file = true; return p; }
     route = R_COLS_ROWS;
   }
   auto E = [&](const std::string &s) -> mpq_QSprob {
